@@ -192,6 +192,9 @@ type SimSub struct {
 	Alias  bool
 	Named  bool
 	UseVar bool
+	// Wrap puts the subscription field inside inline fragments (1: without a
+	// condition, 2: on Subscription, 3: nested with a directive).
+	Wrap int
 
 	// Args is the argument map the subscription resolver received when this
 	// subscriber was registered (kept, as NewSubscription keeps it): it must
@@ -371,7 +374,16 @@ func (w *SubWorld) Subscribe(sid int) string {
 		field = strings.Replace(field, "watch", "watchAny", 1)
 		sel, frag = SubUnionSelections[s.SelIndex%len(SubUnionSelections)].Sel, ""
 	}
-	req := op + " { " + field + "(topic: " + topic + ", sid: " + sidText + ") " + sel + " }"
+	body := field + "(topic: " + topic + ", sid: " + sidText + ") " + sel
+	switch s.Wrap {
+	case 1:
+		body = "... { " + body + " }"
+	case 2:
+		body = "... on Subscription { " + body + " }"
+	case 3:
+		body = "... @include(if: true) { ... { " + body + " } }"
+	}
+	req := op + " { " + body + " }"
 	if frag != "" {
 		req += "\n" + frag
 	}
